@@ -121,22 +121,8 @@ func (ef *Filter) Process(ctx context.Context, e *eventlogger.Event) (*eventlogg
 		return e, nil
 	}
 
-	var filtered bool
-	filterOps := DefaultFilterOperations()
-	for class := range filterOps {
-		override, ok := ef.FilterOperationOverrides[class]
-		if ok {
-			filterOps[class] = override
-		}
-		if filterOps[class] != NoOperation {
-			filtered = true
-		}
-	}
-	// if there's nothing being filtered, then we're done!
-	if !filtered {
-		return e, nil
-	}
-
+	// a rotation payload is always consumed here (it carries key material and
+	// must never continue down the pipeline), whatever operations are configured.
 	if i, ok := e.Payload.(RotateWrapper); ok {
 		ef.l.Lock()
 		defer ef.l.Unlock()
@@ -152,6 +138,22 @@ func (ef *Filter) Process(ctx context.Context, e *eventlogger.Event) (*eventlogg
 			copy(ef.HmacInfo, i.HmacInfo())
 		}
 		return nil, nil
+	}
+
+	var filtered bool
+	filterOps := DefaultFilterOperations()
+	for class := range filterOps {
+		override, ok := ef.FilterOperationOverrides[class]
+		if ok {
+			filterOps[class] = override
+		}
+		if filterOps[class] != NoOperation {
+			filtered = true
+		}
+	}
+	// if there's nothing being filtered, then we're done!
+	if !filtered {
+		return e, nil
 	}
 
 	opts := make([]Option, 0, 3)
